@@ -1,0 +1,96 @@
+//go:build verif
+
+package block
+
+import (
+	"context"
+
+	"github.com/evstack/ev-node/types"
+)
+
+// Verification hooks (build tag "verif"): add-only accessors used by the
+// external property-based harness under /verif. Nothing here changes behaviour.
+
+// VerifPublishBlock runs exactly one production step.
+func (m *Manager) VerifPublishBlock(ctx context.Context) error { return m.publishBlockInternal(ctx) }
+
+// VerifSetPublishBlock replaces the production function (the seam the package's own tests use).
+func (m *Manager) VerifSetPublishBlock(f func(ctx context.Context) error) { m.publishBlock = f }
+
+// VerifHeaderInCh returns the header event channel consumed by SyncLoop.
+func (m *Manager) VerifHeaderInCh() chan NewHeaderEvent { return m.headerInCh }
+
+// VerifDataInCh returns the data event channel consumed by SyncLoop.
+func (m *Manager) VerifDataInCh() chan NewDataEvent { return m.dataInCh }
+
+// VerifRetrieveCh returns the channel that wakes RetrieveLoop.
+func (m *Manager) VerifRetrieveCh() chan struct{} { return m.retrieveCh }
+
+// VerifDAIncluderCh returns the channel that wakes DAIncluderLoop.
+func (m *Manager) VerifDAIncluderCh() chan struct{} { return m.daIncluderCh }
+
+// VerifHeaderStoreCh returns the channel that wakes HeaderStoreRetrieveLoop.
+func (m *Manager) VerifHeaderStoreCh() chan struct{} { return m.headerStoreCh }
+
+// VerifDataStoreCh returns the channel that wakes DataStoreRetrieveLoop.
+func (m *Manager) VerifDataStoreCh() chan struct{} { return m.dataStoreCh }
+
+// VerifDAHeight returns the DA scan cursor.
+func (m *Manager) VerifDAHeight() uint64 { return m.daHeight.Load() }
+
+// VerifLastSubmittedHeaderHeight returns the in-memory header watermark.
+func (m *Manager) VerifLastSubmittedHeaderHeight() uint64 {
+	return m.pendingHeaders.getLastSubmittedHeaderHeight()
+}
+
+// VerifLastSubmittedDataHeight returns the in-memory data watermark.
+func (m *Manager) VerifLastSubmittedDataHeight() uint64 {
+	return m.pendingData.getLastSubmittedDataHeight()
+}
+
+// VerifNumPendingHeaders returns the pending-header counter used by the refusal test.
+func (m *Manager) VerifNumPendingHeaders() uint64 { return m.pendingHeaders.numPendingHeaders() }
+
+// VerifNumPendingData returns the pending-data counter used by the refusal test.
+func (m *Manager) VerifNumPendingData() uint64 { return m.pendingData.numPendingData() }
+
+// VerifProcessNextDAHeight runs the per-height processing of the DA scan once.
+func (m *Manager) VerifProcessNextDAHeight(ctx context.Context) error {
+	return m.processNextDAHeaderAndData(ctx)
+}
+
+// VerifHandleBlob does exactly what processNextDAHeaderAndData does per blob.
+func (m *Manager) VerifHandleBlob(ctx context.Context, bz []byte, daHeight uint64) {
+	if len(bz) == 0 {
+		return
+	}
+	if m.handlePotentialHeader(ctx, bz, daHeight) {
+		return
+	}
+	m.handlePotentialData(ctx, bz, daHeight)
+}
+
+// VerifExecValidate is the validation shared by producer and syncer.
+func (m *Manager) VerifExecValidate(lastState types.State, header *types.SignedHeader, data *types.Data) error {
+	return m.execValidate(lastState, header, data)
+}
+
+// VerifIsExpectedSequencer is the header admission test.
+func (m *Manager) VerifIsExpectedSequencer(header *types.SignedHeader) bool {
+	return m.isUsingExpectedSingleSequencer(header)
+}
+
+// VerifIsValidSignedData is the signed-data admission test.
+func (m *Manager) VerifIsValidSignedData(sd *types.SignedData) bool { return m.isValidSignedData(sd) }
+
+// VerifBatchDataToBytes is the batch-cursor list encoder.
+func VerifBatchDataToBytes(b [][]byte) []byte { return convertBatchDataToBytes(b) }
+
+// VerifBytesToBatchData is the batch-cursor list decoder.
+func VerifBytesToBatchData(b []byte) ([][]byte, error) { return bytesToBatchData(b) }
+
+// VerifEventInChLength is the capacity of the header/data event channels.
+const VerifEventInChLength = eventInChLength
+
+// VerifDataHashForEmptyTxs returns the empty-block data hash constant.
+func VerifDataHashForEmptyTxs() []byte { return append([]byte(nil), dataHashForEmptyTxs...) }
